@@ -1,4 +1,218 @@
-use crate::{ctx::CaseOut, Params};
-pub fn case(_idx: u64, _seed: u64, _p: &Params, o: &mut CaseOut) {
-    o.skipped = true;
+//! C14 — deterministic generators produce exactly their defining arc sets at
+//! every order.
+
+use crate::ctx::CaseOut;
+use crate::events::check_tiling;
+use crate::gen;
+use crate::model::Model;
+use crate::obs::observe;
+use crate::props::c11::{hook_begin, hook_end};
+use crate::reprs::*;
+use crate::rng::Fp;
+use crate::Params;
+use graaf::*;
+
+pub const GENS: [&str; 7] = ["empty", "complete", "circuit", "cycle", "path", "star", "wheel"];
+/// index into gen::FAMILIES of the closed form of each generator
+const FAM: [usize; 7] = [1, 2, 4, 5, 3, 6, 7];
+
+pub fn orders() -> Vec<usize> {
+    let mut v: Vec<usize> = (1..=130).collect();
+    v.push(192);
+    v.push(257);
+    v
+}
+
+pub fn bicliques() -> Vec<(usize, usize)> {
+    let mut v = Vec::new();
+    for m in 1..=12 {
+        for n in 1..=12 {
+            v.push((m, n));
+        }
+    }
+    v.extend([(1, 64), (64, 1), (33, 31)]);
+    v
+}
+
+pub fn n_cases() -> usize {
+    GENS.len() * orders().len() + bicliques().len() + 3 + (GENS.len() + 3 + 3)
+}
+
+fn closed_form(g: usize, n: usize) -> Model {
+    // the closed forms of gen::family are written from the property statement
+    let mut r = crate::rng::Rng(0);
+    gen::family(&mut r, FAM[g], n)
+}
+
+fn biclique_model(a: usize, b: usize) -> Model {
+    let mut m = Model::new(a + b);
+    for u in 0..a {
+        for v in a..(a + b) {
+            m.add(u, v, 1);
+            m.add(v, u, 1);
+        }
+    }
+    m
+}
+
+fn make<D>(g: usize, n: usize) -> D
+where
+    D: Empty + Complete + Circuit + Cycle + Path + Star + Wheel,
+{
+    match g {
+        0 => D::empty(n),
+        1 => D::complete(n),
+        2 => D::circuit(n),
+        3 => D::cycle(n),
+        4 => D::path(n),
+        5 => D::star(n),
+        _ => D::wheel(n),
+    }
+}
+
+fn check_all(o: &mut CaseOut, what: &str, m: &Model, al: AdjacencyList, am: AdjacencyMap, mx: AdjacencyMatrix, el: EdgeList) {
+    let pairs = m.n() <= 40;
+    observe(&al, m, o, &format!("AdjacencyList::{what}"), pairs);
+    observe(&am, m, o, &format!("AdjacencyMap::{what}"), pairs);
+    observe(&mx, m, o, &format!("AdjacencyMatrix::{what}"), pairs);
+    observe(&el, m, o, &format!("EdgeList::{what}"), pairs);
+    // all representations produce the same digraph
+    o.check(AdjacencyList::from(am.clone()) == al, &format!("{what}:AdjacencyMap-differs-from-AdjacencyList"), || String::new());
+    o.check(AdjacencyList::from(mx.clone()) == al, &format!("{what}:AdjacencyMatrix-differs-from-AdjacencyList"), || String::new());
+    o.check(AdjacencyList::from(el.clone()) == al, &format!("{what}:EdgeList-differs-from-AdjacencyList"), || String::new());
+    o.check(al == AdjacencyList::build(m) && am == AdjacencyMap::build(m) && mx == AdjacencyMatrix::build(m) && el == EdgeList::build(m), &format!("{what}:differs-from-add_arc-construction"), || String::new());
+}
+
+pub fn case(idx: u64, _seed: u64, p: &Params, o: &mut CaseOut) {
+    let ords = orders();
+    let bis = bicliques();
+    let mut k = (idx as usize) % n_cases();
+    let max = p.usize("max_order", 1000);
+    let mut fp = Fp::new();
+    let t = std::thread::available_parallelism().map_or(1, |x| x.get());
+    if k < GENS.len() * ords.len() {
+        let (g, n) = (k / ords.len(), ords[k % ords.len()]);
+        let n = if g == 6 { n.max(4) } else { n };
+        if n > max {
+            o.skipped = true;
+            return;
+        }
+        let m = closed_form(g, n);
+        hook_begin(p, idx);
+        let al: AdjacencyList = make(g, n);
+        let ev = hook_end();
+        if g == 1 && n > 1 {
+            if let Some(tl) = check_tiling(&ev, graaf::verif::AL_COMPLETE, n, false, o, "AdjacencyList::complete") {
+                o.sigs.push((graaf::verif::AL_COMPLETE, tl.signature));
+                o.bumpn("workers", tl.workers);
+            } else {
+                o.bump("hook_log_empty");
+            }
+        }
+        check_all(o, GENS[g], &m, al, make(g, n), make(g, n), make(g, n));
+        fp.s(GENS[g]).us(n);
+        o.nontrivial = n > t || (n * n) % 64 != 0;
+        o.bump(GENS[g]);
+        o.bumpn("order/16", n / 16);
+        if o.want_desc {
+            o.desc = format!("{}({n}) in all four unweighted types (available_parallelism {t})", GENS[g]);
+        }
+        o.fp = fp.0;
+        return;
+    }
+    k -= GENS.len() * ords.len();
+    if k < bis.len() {
+        let (a, b) = bis[k];
+        if a + b > max {
+            o.skipped = true;
+            return;
+        }
+        let m = biclique_model(a, b);
+        check_all(o, "biclique", &m, AdjacencyList::biclique(a, b), AdjacencyMap::biclique(a, b), AdjacencyMatrix::biclique(a, b), EdgeList::biclique(a, b));
+        fp.s("biclique").us(a).us(b);
+        o.fp = fp.0;
+        o.nontrivial = a != b;
+        o.bump("biclique");
+        if o.want_desc {
+            o.desc = format!("biclique({a},{b}) in all four unweighted types");
+        }
+        return;
+    }
+    k -= bis.len();
+    if k < 3 {
+        let (name, m) = match k {
+            0 => ("trivial", Model::new(1)),
+            1 => ("claw", biclique_model(1, 3)),
+            _ => ("utility", biclique_model(3, 3)),
+        };
+        match k {
+            0 => check_all(o, name, &m, AdjacencyList::trivial(), AdjacencyMap::trivial(), AdjacencyMatrix::trivial(), EdgeList::trivial()),
+            1 => check_all(o, name, &m, AdjacencyList::claw(), AdjacencyMap::claw(), AdjacencyMatrix::claw(), EdgeList::claw()),
+            _ => check_all(o, name, &m, AdjacencyList::utility(), AdjacencyMap::utility(), AdjacencyMatrix::utility(), EdgeList::utility()),
+        }
+        fp.s(name);
+        o.fp = fp.0;
+        o.nontrivial = true;
+        o.bump(name);
+        if o.want_desc {
+            o.desc = format!("{name}() in all four unweighted types");
+        }
+        return;
+    }
+    k -= 3;
+    // inadmissible parameters must panic
+    let (what, desc): (String, String);
+    macro_rules! all_panic {
+        ($name:expr, $e:expr) => {{
+            type D0 = AdjacencyList;
+            type D1 = AdjacencyMap;
+            type D2 = AdjacencyMatrix;
+            type D3 = EdgeList;
+            {
+                type D = D0;
+                let _ = o.must_panic(&format!("AdjacencyList::{}:no-panic", $name), || $name.to_string(), || $e(std::marker::PhantomData::<D>));
+            }
+            {
+                type D = D1;
+                let _ = o.must_panic(&format!("AdjacencyMap::{}:no-panic", $name), || $name.to_string(), || $e(std::marker::PhantomData::<D>));
+            }
+            {
+                type D = D2;
+                let _ = o.must_panic(&format!("AdjacencyMatrix::{}:no-panic", $name), || $name.to_string(), || $e(std::marker::PhantomData::<D>));
+            }
+            {
+                type D = D3;
+                let _ = o.must_panic(&format!("EdgeList::{}:no-panic", $name), || $name.to_string(), || $e(std::marker::PhantomData::<D>));
+            }
+        }};
+    }
+    fn mk<D: Empty + Complete + Circuit + Cycle + Path + Star + Wheel + Order>(g: usize, n: usize, _: std::marker::PhantomData<D>) -> usize {
+        make::<D>(g, n).order()
+    }
+    fn bi<D: Biclique + Order>(a: usize, b: usize, _: std::marker::PhantomData<D>) -> usize {
+        D::biclique(a, b).order()
+    }
+    if k < GENS.len() {
+        let g = k;
+        what = format!("{}(0)", GENS[g]);
+        all_panic!(what, |ph| mk(g, 0, ph));
+        desc = format!("{what} must panic in all four types");
+    } else if k < GENS.len() + 3 {
+        let n = k - GENS.len() + 1;
+        what = format!("wheel({n})");
+        all_panic!(what, |ph| mk(6, n, ph));
+        desc = format!("{what} must panic in all four types");
+    } else {
+        let (a, b) = [(0, 3), (3, 0), (0, 0)][k - GENS.len() - 3];
+        what = format!("biclique({a},{b})");
+        all_panic!(what, |ph| bi(a, b, ph));
+        desc = format!("{what} must panic in all four types");
+    }
+    fp.s(&what);
+    o.fp = fp.0;
+    o.nontrivial = true;
+    o.bump("inadmissible");
+    if o.want_desc {
+        o.desc = desc;
+    }
 }
